@@ -800,6 +800,8 @@ func (cl *compiler) newLabel() *label {
 
 func (cl *compiler) bindLabel(l *label) {
 	l.targetPos = len(cl.code)
+	// Code can reach this position by a jump: whatever was emitted last is not "the previous instruction" any more.
+	cl.lastOp = opInvalid
 }
 
 func (cl *compiler) emit(op opcode) {
